@@ -32,6 +32,24 @@ var c11CtorFlow = map[string]string{
 	"_query_iter/0":   `set(<.>;.term.suffix_list=[0].iter=true)`,
 }
 
+// c11CtorFlowAlt: equivalent shapes. gojq.Func's printer (and compiler) test len(Args), so an empty
+// argument list and an absent one are the same call.
+var c11CtorFlowAlt = map[string]string{
+	"_query_func/1":  `term.func.args=[] term.func.name=<arg0> term.type="TermTypeFunc"`,
+	"_query_empty/0": `term.func.args=[] term.func.name="empty" term.type="TermTypeFunc"`,
+}
+
+func c11DropNullFacts(flat string) string {
+	var out []string
+	for _, f := range strings.Split(flat, " ") {
+		if strings.HasSuffix(f, "=null") && !strings.ContainsAny(f, "(){}") {
+			continue
+		}
+		out = append(out, f)
+	}
+	return strings.Join(out, " ")
+}
+
 // c11Accessors: the field (or comparison) each accessor is.
 var c11Accessors = map[string]string{
 	"_query_is_func/0":    `.term.type=="TermTypeFunc"`,
@@ -43,7 +61,7 @@ var c11Accessors = map[string]string{
 }
 
 func (c *c11Ctx) ctor() {
-	ru := c.r.Rule("C11.ctor", "each jq AST constructor builds a value that decodes into gojq's structs (field names, TermType/operator strings, the field its printer arm reads) and puts its input, arguments and constants at the places the construct's meaning requires (left/right, body/catch, name/args ...)", 35)
+	ru := c.r.Rule("C11.ctor", "each jq AST constructor builds a value that decodes into gojq's structs (field names, TermType/operator strings, the field its printer arm reads) and puts its input, arguments and constants at the places the construct's meaning requires (left/right, body/catch, name/args ...); _query_commas folds every non-empty list", 36)
 	queryField := c11Field{Kind: "struct", Elem: "Query"}
 	for _, k := range fw.SortedKeys(c11CtorFlow) {
 		var name string
@@ -57,6 +75,13 @@ func (c *c11Ctx) ctor() {
 		}
 		v := c.evalDef(d)
 		got := v.flat()
+		if alt, ok := c11CtorFlowAlt[k]; ok && got == alt {
+			got = c11CtorFlow[k]
+		}
+		// an absent key and an explicit null decode to the same (nil) field
+		if c11DropNullFacts(got) == c11DropNullFacts(c11CtorFlow[k]) {
+			got = c11CtorFlow[k]
+		}
 		ru.Check(got == c11CtorFlow[k], "flow:"+k, c.pos(d), got,
 			fmt.Sprintf("%s builds %s, but the construct needs %s (an argument, the input or a constant ends up in the wrong place)", k, got, c11CtorFlow[k]))
 		var probs []string
@@ -112,6 +137,7 @@ func (c *c11Ctx) ctor() {
 	}
 	// _query_commas: a, b, c in order, each element once; empty list -> empty
 	if d := c.def(ru, c11QueryJQ, "_query_commas", 0); d != nil {
+		c.commasGuard(ru, d)
 		var red *gojq.Reduce
 		fw.WalkJQ(d.Def.Body, func(n any) bool {
 			if r, ok := n.(*gojq.Reduce); ok {
@@ -481,19 +507,51 @@ func (c *c11Ctx) descendCompare(ru *fw.Rule, sp c11DescendSpec, d *fw.JQDef, got
 	sort.Strings(want)
 	gm := map[string]bool{}
 	for _, g := range got {
-		gm[g] = true
+		gm[c11NormSite(g)] = true
 	}
 	wm := map[string]bool{}
 	for _, w := range want {
-		wm[w] = true
-		ru.Check(gm[w], "site:"+d.Key()+":"+w, c.pos(d), sp.note,
+		wm[c11NormSite(w)] = true
+		ru.Check(gm[c11NormSite(w)], "site:"+d.Key()+":"+w, c.pos(d), sp.note,
 			fmt.Sprintf("%s does not apply %s; it has {%s}. %s", d.Key(), w, strings.Join(got, " ; "), sp.note))
 	}
 	for _, g := range got {
-		if !wm[g] {
+		if !wm[c11NormSite(g)] {
 			ru.Fail("extra:"+d.Key()+":"+g, c.pos(d), fmt.Sprintf("%s applies %s, which is not part of its descent {%s}. %s", d.Key(), g, strings.Join(want, " ; "), sp.note))
 		}
 	}
+}
+
+// c11NormSite brings the guard set of a site into a canonical form. A gojq.Query is either a term
+// or a binary query (op/left/right), never both, so a passed test on one side makes a failed test
+// on the other side redundant: T(.term…) drops F(.op…) and T(.op…) drops F(.term…). The order
+// in which a definition asks the two questions then does not matter.
+func c11NormSite(s string) string {
+	i := strings.LastIndex(s, "{")
+	if i < 0 || !strings.HasSuffix(s, "}") {
+		return s
+	}
+	head, body := s[:i], s[i+1:len(s)-1]
+	if body == "" {
+		return s
+	}
+	gs := strings.Split(body, " & ")
+	tTerm, tOp := false, false
+	for _, g := range gs {
+		tTerm = tTerm || strings.HasPrefix(g, "T(.term")
+		tOp = tOp || strings.HasPrefix(g, "T(.op")
+	}
+	var out []string
+	seen := map[string]bool{}
+	for _, g := range gs {
+		if (tTerm && strings.HasPrefix(g, "F(.op")) || (tOp && strings.HasPrefix(g, "F(.term")) || seen[g] {
+			continue
+		}
+		seen[g] = true
+		out = append(out, g)
+	}
+	sort.Strings(out)
+	return head + "{" + strings.Join(out, " & ") + "}"
 }
 
 // ---------------------------------------------------------------------------
@@ -509,6 +567,29 @@ func (c *c11Ctx) fromto() {
 		ok := len(st) == 2 && !st[0].isBind() && !st[1].isBind() && (c11Call(st[0].Q, "tojson", 0) != nil || c11Call(st[0].Q, "tostring", 0) != nil) && c11Call(st[1].Q, "_query_fromstring", 0) != nil
 		ru.Check(ok, "toquery", c.pos(d), "tojson | _query_fromstring", "_query_toquery must be exactly tojson | _query_fromstring (the AST of the JSON text of the AST); it is `"+fw.JQStr(d.Def.Body)+"`")
 	}
+}
+
+// c11DelNames: the top-level fields a del() argument names (`.a` or `.a, .b`); nil if it has another form.
+func c11DelNames(q *gojq.Query) map[string]bool {
+	q = c11Unparen(q)
+	if q == nil {
+		return nil
+	}
+	if c11Plain(q) && q.Left != nil && q.Op == gojq.OpComma {
+		a, b := c11DelNames(q.Left), c11DelNames(q.Right)
+		if a == nil || b == nil {
+			return nil
+		}
+		for k := range b {
+			a[k] = true
+		}
+		return a
+	}
+	ch := c11QueryChain(q)
+	if ch == nil || ch.Root != "." || len(ch.Steps) != 1 || len(ch.Names) != 1 {
+		return nil
+	}
+	return map[string]bool{ch.Names[0]: true}
 }
 
 func (c *c11Ctx) fromtoDef(ru *fw.Rule, d *fw.JQDef) {
@@ -551,7 +632,16 @@ func (c *c11Ctx) fromtoDef(ru *fw.Rule, d *fw.JQDef) {
 	saved := map[string]string{} // directive -> variable
 	savedAt := map[string]int{}
 	for i, s := range st {
-		if !s.isBind() || !c11IsIdentity(s.BindSrc) {
+		if !s.isBind() {
+			continue
+		}
+		// .meta as $m
+		if ch := c11QueryChain(s.BindSrc); ch != nil && ch.Root == "." && len(ch.Steps) == 1 && len(ch.Names) == 1 && len(s.Patterns) == 1 && s.Patterns[0].Name != "" {
+			saved[ch.Names[0]] = s.Patterns[0].Name
+			savedAt[ch.Names[0]] = i
+			continue
+		}
+		if !c11IsIdentity(s.BindSrc) {
 			continue
 		}
 		for _, p := range s.Patterns {
@@ -574,7 +664,7 @@ func (c *c11Ctx) fromtoDef(ru *fw.Rule, d *fw.JQDef) {
 			if s.isBind() {
 				continue
 			}
-			if f := c11Call(s.Q, "del", 1); f != nil && c11IsChain(f.Args[0], ".", "."+dn) {
+			if f := c11Call(s.Q, "del", 1); f != nil && c11DelNames(f.Args[0])[dn] {
 				if delAt < 0 {
 					delAt = i
 				}
@@ -599,10 +689,18 @@ func (c *c11Ctx) fromtoDef(ru *fw.Rule, d *fw.JQDef) {
 			continue
 		}
 		known := s.isBind() && c11IsIdentity(s.BindSrc)
+		if s.isBind() {
+			if ch := c11QueryChain(s.BindSrc); ch != nil && ch.Root == "." && len(ch.Steps) == 1 && len(ch.Names) == 1 && (ch.Names[0] == "meta" || ch.Names[0] == "imports") {
+				known = true
+			}
+		}
 		if !s.isBind() {
 			if f := c11Call(s.Q, "del", 1); f != nil {
-				if ch := c11QueryChain(f.Args[0]); ch != nil && len(ch.Names) == 1 && (ch.Names[0] == "meta" || ch.Names[0] == "imports") {
+				if names := c11DelNames(f.Args[0]); names != nil {
 					known = true
+					for n := range names {
+						known = known && (n == "meta" || n == "imports")
+					}
 				}
 			}
 			q := c11Unparen(s.Q)
@@ -1030,7 +1128,7 @@ var c11WrapperKeys = map[string]bool{"input_query": true, "output_query": true, 
 var c11ClosedCtors = map[string]bool{"_query_null/0": true, "_query_ident/0": true, "_query_iter/0": true, "_query_array/0": true, "_query_func/1": true}
 
 func (c *c11Ctx) closed() {
-	ru := c.r.Rule("C11.closed", "every input_query/output_query/catch_query handed to eval is built only from {_query_func(\"const\"), _query_null, _query_ident, _query_iter, _query_array} (single terms, nothing that binds or defines), names an existing arity-0 function, and option keys written and read agree; slurps tables name existing arity-1 functions", 22)
+	ru := c.r.Rule("C11.closed", "every input_query/output_query/catch_query handed to eval is built only from {_query_func(\"const\"), _query_null, _query_ident, _query_iter, _query_array} (single terms, nothing that binds or defines), names an existing arity-0 function (a catch_query is always such a call: what the handler yields becomes a result of the program), and option keys written and read agree; slurps tables name existing arity-1 functions", 24)
 	type site struct {
 		key  string
 		val  *gojq.Query
@@ -1092,6 +1190,29 @@ func (c *c11Ctx) closed() {
 			continue
 		}
 		ru.Ok(key, s.file, fw.JQStr(s.val))
+		if s.key == "catch_query" {
+			// what the handler yields lands in the result stream of the program (try (P) catch H | output):
+			// identity, null, [..] and .[] always yield the error (or parts of it) as a result
+			den := c11DenoteAST(s.val, nil, nil, 0)
+			bad := ""
+			var leaves func(d *c11Den)
+			leaves = func(d *c11Den) {
+				if d == nil {
+					return
+				}
+				if d.Cond != nil {
+					leaves(d.Then)
+					leaves(d.Else)
+					return
+				}
+				if d.Kind != "call" {
+					bad = d.String()
+				}
+			}
+			leaves(den)
+			ru.Check(bad == "", "catch-call:"+fmt.Sprintf("%s#%d", base, ord[base]), s.file, "the error handler is a function call",
+				fmt.Sprintf("catch_query in %s denotes `%s`: whatever the handler yields becomes a result of the user's program, so it must be a call of a reporting function, not a value expression", s.def, bad))
+		}
 		dedup := map[string]bool{}
 		for _, nm := range names {
 			if dedup[nm] {
@@ -1246,7 +1367,15 @@ func (c *c11Ctx) handoff(ru *fw.Rule) {
 		ok := len(calls) == 1 && len(calls[0].Args) == 2
 		msg := fmt.Sprintf("eval/4 must call _eval/2 exactly once (found %d)", len(calls))
 		if ok {
-			st := c11Stages(calls[0].Args[0])
+			prog := calls[0].Args[0]
+			// the program may be bound to a variable first:  (PROG) as $p | _eval($p; ...)
+			if vn, isVar := c11Var(prog, ""); isVar && vn != d.Def.Args[0] {
+				srcs := c11BindSources(d.Def.Body, vn)
+				if len(srcs) == 1 {
+					prog = srcs[0]
+				}
+			}
+			st := c11Stages(prog)
 			ok = len(st) == 2 && !st[0].isBind() && !st[1].isBind()
 			msg = "the program given to _eval must be `" + d.Def.Args[0] + " | _eval_query_rewrite(" + d.Def.Args[1] + ")`; it is `" + fw.JQStr(calls[0].Args[0]) + "`"
 			if ok {
@@ -1270,7 +1399,34 @@ func (c *c11Ctx) handoff(ru *fw.Rule) {
 		}
 		ok := len(calls) == 1
 		if ok {
-			st := c11Stages(calls[0].Args[0])
+			prog := calls[0].Args[0]
+			// the program may be bound to a variable first:  (PROG) as $p | _eval($p; ...)
+			if vn, isVar := c11Var(prog, ""); isVar && vn != d.Def.Args[0] {
+				var srcs []*gojq.Query
+				fw.WalkJQ(d.Def.Body, func(n any) bool {
+					t, isT := n.(*gojq.Term)
+					if !isT {
+						return true
+					}
+					for i, sfx := range t.SuffixList {
+						if sfx.Bind == nil {
+							continue
+						}
+						for _, pt := range sfx.Bind.Patterns {
+							if pt.Name == vn {
+								src := *t
+								src.SuffixList = t.SuffixList[:i]
+								srcs = append(srcs, &gojq.Query{Term: &src})
+							}
+						}
+					}
+					return true
+				}, false)
+				if len(srcs) == 1 {
+					prog = srcs[0]
+				}
+			}
+			st := c11Stages(prog)
 			ok = len(st) == 2 && !st[0].isBind() && !st[1].isBind() && c11Call(st[1].Q, "_query_tostring", 0) != nil
 			if ok {
 				_, ok = c11Var(st[0].Q, d.Def.Args[0])
